@@ -70,6 +70,66 @@ fn opt_u64(o: Option<u64>) -> String {
 	}
 }
 
+struct NoLog;
+impl lightning::util::logger::Logger for NoLog {
+	fn log(&self, _r: lightning::util::logger::Record) {}
+}
+
+/// Drives the real public NetworkGraph API: one announced channel (scid 42), optional existing
+/// updates per direction, then the probed channel_update.  Timestamps are offsets from
+/// base = now - 1 day so that the wall-clock staleness window of the std build admits them.
+fn update_channel_probe(a: &mut Args) -> String {
+	use lightning::ln::msgs::UnsignedChannelUpdate;
+	use lightning::routing::gossip::{NetworkGraph, NodeId};
+	use bitcoin::constants::ChainHash;
+	use bitcoin::Network;
+	let (capd, capv, existing_mask, off0, off1) = (a.u64(), a.u64(), a.u8(), a.u32(), a.u32());
+	let (flags, ts_off, htlc_max, wrong_chain) = (a.u8(), a.u32(), a.u64(), a.bool());
+	let now = std::time::SystemTime::now().duration_since(std::time::UNIX_EPOCH).unwrap().as_secs();
+	let base = (now - 86400) as u32;
+	let g = NetworkGraph::new(Network::Testnet, NoLog);
+	let n1 = NodeId::from_slice(&[2u8; 33]).unwrap();
+	let n2 = NodeId::from_slice(&[3u8; 33]).unwrap();
+	g.add_channel_from_partial_announcement(
+		42,
+		if capd != 0 { Some(capv) } else { None },
+		now,
+		lightning::types::features::ChannelFeatures::empty(),
+		n1,
+		n2,
+	)
+	.unwrap();
+	let mk = |flags: u8, ts: u32, htlc_max: u64, chain: ChainHash| UnsignedChannelUpdate {
+		chain_hash: chain,
+		short_channel_id: 42,
+		timestamp: ts,
+		message_flags: 1,
+		channel_flags: flags,
+		cltv_expiry_delta: 40,
+		htlc_minimum_msat: 0,
+		htlc_maximum_msat: htlc_max,
+		fee_base_msat: 1,
+		fee_proportional_millionths: 1,
+		excess_data: Vec::new(),
+	};
+	let good = ChainHash::using_genesis_block(Network::Testnet);
+	if existing_mask & 1 != 0 {
+		g.update_channel_unsigned(&mk(0, base + off0, 1, good)).unwrap();
+	}
+	if existing_mask & 2 != 0 {
+		g.update_channel_unsigned(&mk(1, base + off1, 1, good)).unwrap();
+	}
+	let chain = if wrong_chain { ChainHash::using_genesis_block(Network::Bitcoin) } else { good };
+	let res = g.update_channel_unsigned(&mk(flags, base + ts_off, htlc_max, chain));
+	let ro = g.read_only();
+	let ch = ro.channel(42).unwrap();
+	let rd = |d: &Option<lightning::routing::gossip::ChannelUpdateInfo>| match d {
+		Some(i) => format!("1 {} {} {}", i.last_update.wrapping_sub(base), i.enabled as u8, i.htlc_maximum_msat),
+		None => "0 0 0 0".to_string(),
+	};
+	format!("{} {} {}", matches!(res, Ok(Some(_))) as u8, rd(&ch.one_to_two), rd(&ch.two_to_one))
+}
+
 fn dispatch(name: &str, a: &mut Args) -> String {
 	match name {
 		"check_incoming_htlc_cltv" => {
@@ -233,6 +293,7 @@ fn dispatch(name: &str, a: &mut Args) -> String {
 				None => "0 0 0".to_string(),
 			}
 		},
+		"update_channel_probe" => update_channel_probe(a),
 		_ => return format!("error unknown function {}", name),
 	}
 }
